@@ -50,6 +50,9 @@ type Program struct {
 	Sshfx *ssa.Package
 	Ossh  *ssa.Package
 
+	// Renames lists the symbols that were read under their reference names (rename.go)
+	Renames []string
+
 	byPath map[string]*packages.Package
 	cgVTA  *callgraph.Graph
 	cgCHA  *callgraph.Graph
@@ -97,32 +100,33 @@ func goosOf(cfg BuildConfig) string {
 	return "linux"
 }
 
-// Load type-checks the whole module under repo and builds SSA.
-func Load(repo string, cfg BuildConfig) (*Program, error) {
+// loadPackages type-checks the whole module under repo, optionally with an overlay.
+func loadPackages(repo string, cfg BuildConfig, overlay map[string][]byte) (map[string]*packages.Package, []*packages.Package, error) {
 	// go/packages resolves "go" through this process's PATH, not through Config.Env
 	if !strings.HasPrefix(os.Getenv("PATH"), "/opt/veriftools/go1.26.8/bin:") {
 		os.Setenv("PATH", "/opt/veriftools/go1.26.8/bin:"+os.Getenv("PATH"))
 	}
 	pc := &packages.Config{
-		Mode:  packages.LoadAllSyntax,
-		Dir:   repo,
-		Env:   loadEnv(cfg),
-		Tests: false,
+		Mode:    packages.LoadAllSyntax,
+		Dir:     repo,
+		Env:     loadEnv(cfg),
+		Tests:   false,
+		Overlay: overlay,
 	}
 	if cfg.Tags != "" {
 		pc.BuildFlags = []string{"-tags=" + cfg.Tags}
 	}
 	pkgs, err := packages.Load(pc, "./...")
 	if err != nil {
-		return nil, fmt.Errorf("load: %v", err)
+		return nil, nil, fmt.Errorf("load: %v", err)
 	}
 	if len(pkgs) == 0 {
-		return nil, fmt.Errorf("load: zero packages matched ./... in %s", repo)
+		return nil, nil, fmt.Errorf("load: zero packages matched ./... in %s", repo)
 	}
-	p := &Program{Cfg: cfg, Pkgs: pkgs, byPath: map[string]*packages.Package{}}
+	byPath := map[string]*packages.Package{}
 	var terrs []string
 	packages.Visit(pkgs, nil, func(pk *packages.Package) {
-		p.byPath[pk.PkgPath] = pk
+		byPath[pk.PkgPath] = pk
 		if strings.HasPrefix(pk.PkgPath, pkgSftp) {
 			for _, e := range pk.Errors {
 				terrs = append(terrs, e.Error())
@@ -130,13 +134,42 @@ func Load(repo string, cfg BuildConfig) (*Program, error) {
 		}
 	})
 	if len(terrs) > 0 {
-		return nil, fmt.Errorf("load: %d type/parse errors in the module, first: %s", len(terrs), terrs[0])
+		return nil, nil, fmt.Errorf("load: %d type/parse errors in the module, first: %s", len(terrs), terrs[0])
 	}
 	for _, need := range []string{pkgSftp, pkgSshfx, pkgOpenssh} {
-		if p.byPath[need] == nil {
-			return nil, fmt.Errorf("load: package %s not found", need)
+		if byPath[need] == nil {
+			return nil, nil, fmt.Errorf("load: package %s not found", need)
 		}
 	}
+	return byPath, pkgs, nil
+}
+
+// Load type-checks the whole module under repo and builds SSA.  Symbols that were merely
+// renamed relative to the reference tree are renamed back in an overlay first (rename.go).
+func Load(repo string, cfg BuildConfig) (*Program, error) {
+	byPath, pkgs, err := loadPackages(repo, cfg, nil)
+	if err != nil {
+		return nil, err
+	}
+	var renames []string
+	if os.Getenv("VERIF_NO_RENAMES") == "" {
+		if ref, rerr := loadSymtab(); rerr == nil && len(ref) > 0 {
+			cur, objs := collectSymbols(byPath)
+			if recs := detectRenames(ref, cfg.Name, cur, objs); len(recs) > 0 {
+				if ov, oerr := buildOverlay(pkgs[0].Fset, byPath, recs); oerr == nil {
+					if bp2, pk2, err2 := loadPackages(repo, cfg, ov); err2 == nil {
+						byPath, pkgs = bp2, pk2
+						for _, r := range recs {
+							renames = append(renames, fmt.Sprintf("%s: %s read as %s", r.Key, r.New, r.Old))
+						}
+					} else {
+						renames = append(renames, "rename overlay did not type-check, analysed as written: "+err2.Error())
+					}
+				}
+			}
+		}
+	}
+	p := &Program{Cfg: cfg, Pkgs: pkgs, byPath: byPath, Renames: renames}
 	p.Fset = pkgs[0].Fset
 	prog, _ := ssautil.AllPackages(pkgs, ssa.InstantiateGenerics)
 	prog.Build()
